@@ -123,6 +123,9 @@ const (
 	KDoWhile
 	KFor
 	KForeach
+	// KForDown: for (; $v > 0; $v--) over an existing int variable (a local or a parameter): the loop
+	// header itself writes a variable that other names may share
+	KForDown
 )
 
 // Loop is a bounded loop. while/do-while/for use the dedicated counter K
